@@ -25,15 +25,22 @@ type icOp struct {
 	del  string // the id a delete names
 }
 
-func icOps() []icOp {
+// variant 0: a lower-casing id interceptor, modes added through the API under the spellings Eco / eco, y / Y.
+// variant 1: no interceptor, but the model is CONSTRUCTED with its modes (WithInitialMode), one of them under an id
+// with blanks around it (" eco "), which is an id like any other: the spellings " eco " and "eco" name different things.
+func icOps(variant int) []icOp {
 	var ops []icOp
-	for _, id := range []string{"Eco", "y"} {
+	A, a := "Eco", "eco"
+	if variant == 1 {
+		A, a = " eco ", "eco"
+	}
+	for _, id := range []string{A, "y"} {
 		id := id
-		ops = append(ops, icOp{name: "AddMode(" + id + ",normal=" + fmt.Sprint(id == "Eco") + ")", run: func(m *electricpb.Model) error {
-			return m.AddMode(&traits.ElectricMode{Id: id, Title: "t", Normal: id == "Eco"})
+		ops = append(ops, icOp{name: "AddMode(" + id + ",normal=" + fmt.Sprint(id == A) + ")", run: func(m *electricpb.Model) error {
+			return m.AddMode(&traits.ElectricMode{Id: id, Title: "t", Normal: id == A})
 		}})
 	}
-	for _, id := range []string{"Eco", "eco", "y", "Y"} {
+	for _, id := range []string{A, a, "y", "Y"} {
 		id := id
 		ops = append(ops, icOp{name: "ChangeActiveMode(" + id + ")", run: func(m *electricpb.Model) error {
 			_, err := m.ChangeActiveMode(id)
@@ -46,7 +53,7 @@ func icOps() []icOp {
 			}})
 		}
 	}
-	for _, id := range []string{"Eco", "eco"} {
+	for _, id := range []string{A, a} {
 		id := id
 		ops = append(ops, icOp{name: "SetActiveMode(" + id + ")", run: func(m *electricpb.Model) error {
 			return m.SetActiveMode(&traits.ElectricMode{Id: id})
@@ -63,9 +70,15 @@ func icOps() []icOp {
 	return ops
 }
 
-func icRun(path []int) (key, msg string) {
-	ops := icOps()
+func icRun(variant int, path []int) (key, msg string) {
+	ops := icOps(variant)
+	same := strings.EqualFold
 	m := electricpb.NewModel(electricpb.WithRNG(rand.New(rand.NewSource(7))), electricpb.WithModeOption(resource.WithIDInterceptor(strings.ToLower)))
+	if variant == 1 {
+		same = func(x, y string) bool { return x == y }
+		m = electricpb.NewModel(electricpb.WithRNG(rand.New(rand.NewSource(7))), electricpb.WithInitialMode(
+			&traits.ElectricMode{Id: " eco ", Title: "t", Normal: true}, &traits.ElectricMode{Id: "y", Title: "t"}))
+	}
 	changed := false
 	var names []string
 	for _, oi := range path {
@@ -78,7 +91,7 @@ func icRun(path []int) (key, msg string) {
 		if (strings.HasPrefix(o.name, "Change") || strings.HasPrefix(o.name, "SetActive")) && err == nil {
 			changed = true
 		}
-		if o.del != "" && changed && activeExisted && strings.EqualFold(o.del, before.Id) {
+		if o.del != "" && changed && activeExisted && same(o.del, before.Id) {
 			if status.Code(err) != codes.FailedPrecondition {
 				return "interceptor-active-deleted " + hist, fmt.Sprintf("the active mode is %q; DeleteMode(%q) names the same mode under the configured id interceptor and returned %v", before.Id, o.del, err)
 			}
@@ -102,10 +115,16 @@ func icRun(path []int) (key, msg string) {
 }
 
 func registerInterceptor(h *hx.H) {
-	h.Seq("model/id-interceptor(lower-case)", func(s *hx.Seq) {
+	for variant, title := range []string{"model/id-interceptor(lower-case)", "model/constructed-with-initial-modes(id with blanks)"} {
+		registerIC(h, variant, title)
+	}
+}
+
+func registerIC(h *hx.H, variant int, title string) {
+	h.Seq(title, func(s *hx.Seq) {
 		var rp struct{ Path []int }
 		if s.Replaying(&rp) {
-			if k, m := icRun(rp.Path); k != "" {
+			if k, m := icRun(variant, rp.Path); k != "" {
 				s.Fail(k, m, rp)
 			}
 			return
@@ -114,7 +133,7 @@ func registerInterceptor(h *hx.H) {
 		if s.Thorough {
 			depth = 4
 		}
-		n := len(icOps())
+		n := len(icOps(variant))
 		var rec func(path []int)
 		idx := 0
 		rec = func(path []int) {
@@ -125,7 +144,7 @@ func registerInterceptor(h *hx.H) {
 				}
 				s.Eval(1)
 				s.Trans(len(path))
-				if k, m := icRun(path); k != "" {
+				if k, m := icRun(variant, path); k != "" {
 					s.Fail(k, m, map[string]any{"Path": append([]int(nil), path...)})
 					return
 				}
